@@ -129,7 +129,7 @@ def r03c(ctx, rep, cr):
                                   'commit can be decided although not every participant voted yes' % (v, '() and '.join(miss)))
                 else:
                     rep.holds('R03c', f, '%s#%d all-yes' % (v, k), 'through all_voted() ∧ all_yes()')
-    rep.floor('R03c', 'writes to DistributedTransaction.phase', nwrites, 18)
+    rep.floor('R03c', 'writes to DistributedTransaction.phase', nwrites, 6)
 
 
 def r03d(ctx, rep, cr):
@@ -219,7 +219,7 @@ def r03e(ctx, rep, cr):
                               '(as Prepared/Committing) although its participants were already told the outcome' % '/'.join(bad))
             else:
                 rep.holds('R03e', f, 'remove#%d' % k, 'after Ok TxComplete, or unreachable for logged phases')
-    rep.floor('R03e', 'pending.remove sites', n, 7)
+    rep.floor('R03e', 'pending.remove sites', n, 4)
 
 
 def _ids_filtered_out(cr, f, defs, adt, phase, rem_call):
@@ -293,6 +293,58 @@ def _ids_only_from_unreachable(f, defs, pa, phase, rem_call):
     return all(c.bb not in R for c in pushes)
 
 
+def r03g(ctx, rep, cr):
+    rep.rule('R03g', 'decision and removal under one lock: in commit / abort / force_resolve / complete_commit / complete_abort one write '
+                     'guard on `pending` is live, on every path, from the first read of the transaction\'s phase through every decision '
+                     'record (PhaseChange / TxComplete) to the removal from pending — otherwise a commit and an abort of the same '
+                     'transaction can both pass their phase test')
+    import lockgraph as LG
+    for name in ('commit', 'abort', 'force_resolve', 'complete_commit', 'complete_abort'):
+        f = rep.require_fn('R03g', cr, T.COORD + name)
+        if f is None:
+            continue
+        defs = A.Defs(f)
+        gs = [g for g in A.guards(f, defs) if (LG.lock_id(g) or '').endswith('DistributedTxCoordinator.pending')]
+        wg = [g for g in gs if A.guard_kind(g.ty) == 'RwLockWriteGuard' and g.acq_calls]
+        sites = []
+        for i, b in enumerate(f.bbs):
+            if b['cleanup']:
+                continue
+            for j, st in enumerate(b['s']):
+                if any(T.PHASE_FIELD in A.place_fields(pl) for pl in A.rvalue_places(st[1])) or (T.PHASE_FIELD in A.place_fields(st[0])):
+                    sites.append(((i, j), 'phase access @%d' % st[2]))
+            t = b['t']
+            if t[0] == 'call' and not t[8]:
+                for a in t[3]:
+                    if a[0] != 'k' and T.PHASE_FIELD in A.place_fields(a[1]):
+                        sites.append(((i, len(b['s'])), 'phase read @%d' % t[7]))
+        for c in T.log_calls(f, defs, 'PhaseChange') + T.log_calls(f, defs, 'TxComplete'):
+            sites.append(((c.bb, len(f.bbs[c.bb]['s'])), 'decision record @%d' % c.line))
+        rems = T.pending_removes(f, defs)
+        for c in rems:
+            sites.append(((c.bb, len(f.bbs[c.bb]['s'])), 'pending.remove @%d' % c.line))
+        if not rems or len(sites) < 2:
+            rep.violation('R03g', f, 'shape', f.loc(), 'anchor-missing: no removal from pending (%d) / phase access in %s' % (len(rems), name))
+            continue
+        ok = False
+        miss = []
+        for g in wg:
+            # guards moved into drop() keep the same lock: union of live ranges of guards with this lock acquired by g's call
+            lv = A.live_positions(f, g.acq, g.kills, must=True)
+            out = [what for (pos, what) in sites if not A.live_at(lv, pos)]
+            if not out:
+                ok = True
+            else:
+                miss = out
+        if ok:
+            rep.holds('R03g', f, 'one critical section', '%d sites under one pending write guard' % len(sites))
+        else:
+            rep.violation('R03g', f, 'split-critical-section', f.loc(),
+                          '%s does not hold one write guard on `pending` across its phase test, decision records and removal (outside the guard: %s; '
+                          'write guards on pending: %d): a concurrent commit/abort of the same transaction can pass its own phase test in between and both '
+                          'decisions are announced' % (name, (miss or ['no write guard'])[:3], len(wg)))
+
+
 def run(ctx, rep):
     cr = ctx.crate('tensor_chain')
     cg = ctx.callgraph(['tensor_chain'])
@@ -301,3 +353,4 @@ def run(ctx, rep):
     r03c(ctx, rep, cr)
     r03d(ctx, rep, cr)
     r03e(ctx, rep, cr)
+    r03g(ctx, rep, cr)
